@@ -691,7 +691,7 @@ class OFXClient:
         logger.info("Creating tax 1099 request")
         signon = self.signon(password)
 
-        rq = TAX1099RQ(*taxyears, recid=recid or None)
+        rq = TAX1099RQ(*taxyears, acctnum=acctnum or None, recid=recid or None)
         msgs = TAX1099MSGSRQV1(TAX1099TRNRQ(trnuid=self.uuid, tax1099rq=rq))
 
         logger.debug(f"Wrapped tax 1099 request messages: {msgs}")
